@@ -323,6 +323,12 @@ func (w *world) attempts(sp spelling, depth int) []attempt {
 			add("copy-source-versionId", "UploadPartCopy", upc(named+"/"+src+"?versionId="+v), named, "mpu/key", false)
 		}
 	}
+	// --- names of user metadata: a header name cannot carry '/', a query parameter of a presigned URL can
+	for _, mn := range []string{"X-Amz-Meta-" + upT + "zq-meta-by-c04", "x-amz-meta-/" + upT + "outside/zq-meta-by-c04", "x-amz-meta-x/" + upT + victim + "/" + canaryFile} {
+		add("metadata-name", "PutObject-presigned", &s3c.Req{Method: "PUT", Path: nb + "meta-target", Query: s3c.Q(mn, "META-BY-C04"), Presign: true, Body: []byte("x")}, named, "meta-target", false)
+		add("metadata-name", "CreateMultipartUpload-presigned", &s3c.Req{Method: "POST", Path: nb + "meta-mpu", Query: "uploads=&" + s3c.Q(mn, "META-BY-C04"), Presign: true}, named, "meta-mpu", false)
+		add("metadata-name", "PutObject-header", &s3c.Req{Method: "PUT", Path: nb + "meta-target", Header: s3c.H{{mn, "META-BY-C04"}}, Body: []byte("x")}, named, "meta-target", false)
+	}
 	// --- listing parameters
 	for _, p := range []string{"prefix", "marker", "start-after", "continuation-token", "delimiter"} {
 		for _, v := range []string{upT, dirT + "/", upT + victim + "/"} {
@@ -678,7 +684,8 @@ func Run(c *ev.Ctx) int {
 			continue
 		}
 		cfg := gw.Config{Versioning: true}
-		if c.Thorough() && wi%2 == 1 {
+		if wi%2 == 1 && (c.Thorough() || wi == 1) {
+			// the sidecar store turns object names AND attribute names into paths
 			cfg.Sidecar = true
 		}
 		wg.Add(1)
